@@ -10,7 +10,7 @@ for f in glob.glob(src + "/*_test.go") + glob.glob(src + "/notes.md"):
     shutil.copy(f, dst + "/" + os.path.basename(f).replace("_test.go", "_test.go.txt"))
 confirm = open(f"/tmp/mut/{pid}-confirm.txt").read()
 meta = {
-    "property": pid.rstrip("bcdefghi"),
+    "property": pid.rstrip("bcdefghij"),
     "breaks": open(src + "/notes.md").read().split("\n\n")[0][:600],
     "needs_to_manifest": needs,
     "confirmed_by_me": {
